@@ -268,6 +268,35 @@ def rule_concluded_per_conclusion(db: ProgramDB) -> List[Instance]:
                 if isinstance(d, ast.AST):
                     expr_names |= names_in(d)
         ok = bool(expr_names & derived) or cp in expr_names
+        partial = None
+        if ok:
+            # ... and by each conclusion as a whole: a key built from a part of it (the variable it is about, without the value)
+            # is shared by two conclusions that differ in the rest
+            key_exprs = [recv] + [d for nm in names_in(recv) for d in defs.get(nm, []) if isinstance(d, ast.AST)]
+            concl_fields = {f.name for f in db.cls("Conclusion").own_fields if not f.name.startswith("_")} if db.cls("Conclusion", required=False) else set()
+            for ke in key_exprs:
+                for comp in [x for x in ast.walk(ke) if isinstance(x, (ast.GeneratorExp, ast.ListComp, ast.SetComp))]:
+                    g = comp.generators[0]
+                    if not (isinstance(g.target, ast.Name) and names_in(g.iter) & (derived | {cp})):
+                        continue
+                    lv = g.target.id
+                    whole = False
+                    used_fields = set()
+                    parents = {id(ch): par for par in ast.walk(comp.elt) for ch in ast.iter_child_nodes(par)}
+                    for nm in [x for x in ast.walk(comp.elt) if isinstance(x, ast.Name) and x.id == lv]:
+                        par = parents.get(id(nm))
+                        if isinstance(par, ast.Attribute) and par.value is nm:
+                            used_fields.add(par.attr)
+                        else:
+                            whole = True
+                    if not whole and used_fields and concl_fields and not concl_fields <= used_fields:
+                        partial = (comp, sorted(concl_fields - used_fields))
+        if partial is not None:
+            out.append(inst("CONCLUDED-PER-CONCLUSION", VIOLATION, m, f"ConclusionSelector.update_conclusion[{unparse(c)[:50]}]",
+                            f"the store is selected by `{unparse(partial[0].elt)}` of each conclusion, which leaves out its {', '.join(partial[1])}: two "
+                            f"conclusions about the same variable with another value (Label(item, 'K1') in the base, Label(item, 'K2') in the "
+                            f"alternative) share one store, and the second counts as already drawn", line=c.lineno))
+            continue
         out.append(inst("CONCLUDED-PER-CONCLUSION", HOLDS if ok else VIOLATION, m, f"ConclusionSelector.update_conclusion[{unparse(c)[:50]}]",
                         f"the store is selected by `{cp}`" if ok else
                         f"`{unparse(recv)}` does not depend on `{cp}`: whether a conclusion was drawn before is looked up by the binding of "
